@@ -19,7 +19,8 @@ MANIFEST = {
         "category": "model_checking",
         "text": "TLC exhaustively checks the planning specification (router written only by Load, planning actions leave it "
                 "unchanged, plans are a function of statement, database and router) within small constants; events recorded "
-                "around every real planning call (getPlan = preBuildUnshardPlan + BuildPlan, field-list rule lookup), with a deep "
+                "around every real planning call (getPlan = preBuildUnshardPlan + BuildPlan; the real COM_FIELD_LIST handler, whose "
+                "routing is observed at fake MySQL backends: which backend, which current database, which table), with a deep "
                 "reflection snapshot of the router before and after, for TLC-generated workloads run sequentially and on 16 "
                 "goroutines, are judged by TLC against the frame condition and against the plan obtained alone.",
         "design_ref": "DESIGN.md section 5 C07, section 4.1 PlanIsolation",
@@ -32,7 +33,7 @@ MANIFEST = {
     "technique": "TLA+ spec + TLC exhaustive check; TLC-generated workloads on real planning code; recorded events judged by TLC",
 }
 
-HARNESS = ["proxy/server/planiso_test.go"]
+HARNESS = ["proxy/server/proto_common_test.go", "proxy/server/planiso_test.go"]
 RUN = "^TestVerifPlanIsolation$"
 NSTMTS = 18
 
